@@ -598,6 +598,57 @@ func (w *worker) levelLiterals(thorough bool) bool {
 	return true
 }
 
+// levelLitPairs: two and three int literals in one text, every ordered pair (triple) of
+// spellings of every width and base: a token must not inherit anything from the previous one.
+func (w *worker) levelLitPairs() bool {
+	sp := []string{"0", "7", "0x1f", "0X1F", "0o17", "0O17", "0b101", "0B11", "9223372036854775807", "9223372036854775808",
+		"18446744073709551616", "0xffffffffffffffffffff", "0o7777777777777777777777777", "0b1" + strings.Repeat("0", 64), "1208925819614629174706176"}
+	mkLit := func(t string) *Node {
+		z, ok := new(big.Int).SetString(t, 0)
+		if !ok {
+			fw.Fatal("c14: literal %s", t)
+		}
+		if z.IsInt64() {
+			return &Node{K: KInt, Lit: &Lit{Text: t, Int: z.Int64()}}
+		}
+		return &Node{K: KInt, Lit: &Lit{Text: t, Big: z}}
+	}
+	try := func(root *Node, key string) {
+		r := render1(root, false, nil)
+		for _, L := range []*Layout{{}, {Tight: true}} {
+			src, ok := r.Text(L)
+			if !ok {
+				continue
+			}
+			w.st.Evals++
+			w.st.Nontrivial++
+			if errs := judgeTree(src, root, false, false); len(errs) > 0 {
+				w.violate("lit-sequence", "lit-sequence:"+key, strings.Join(errs, "; ")+" — text "+quote(src),
+					violCase{Kind: "tree", Src: b64(src), Show: quote(src), Tree: root, Layout: L})
+			} else {
+				w.st.Outcome("literal-sequence-ok")
+			}
+		}
+	}
+	for _, a := range sp {
+		for _, b := range sp {
+			w.idx++
+			if !w.c.Mine(w.idx) {
+				continue
+			}
+			if w.expired() {
+				return false
+			}
+			try(wrapExpr(mk(KList, mkLit(a), mkLit(b))), a+","+b)
+			try(mk(KFile, &Node{K: KAssign, Op: "=", Kids: []*Node{id("x"), mkLit(a)}}, &Node{K: KAssign, Op: "=", Kids: []*Node{id("y"), mkLit(b)}}), a+";"+b)
+			for _, c := range []string{"7", "0o17", "18446744073709551616"} {
+				try(wrapExpr(mk(KTuple, mkLit(a), mkLit(b), mkLit(c))), a+","+b+","+c)
+			}
+		}
+	}
+	return true
+}
+
 func (w *worker) levelPrec(k int, ops []opDef, name string, effort int) bool {
 	g := newOpGen(ops)
 	ok := true
@@ -732,6 +783,7 @@ func levels(tier string) []elevel {
 	add := func(name string, run func(w *worker) bool) { ls = append(ls, elevel{name, run}) }
 
 	add("literals(every spelling x 2 contexts x 4-6 layouts; malformed ones x 4 contexts)", func(w *worker) bool { return w.levelLiterals(thorough) })
+	add("literal sequences(all ordered pairs and some triples of 15 int spellings of every base and width)", func(w *worker) bool { return w.levelLitPairs() })
 	add("prec:k=1(42 operators/contexts; pairs of deviations)", func(w *worker) bool { return w.levelPrec(1, all, "prec", 2) })
 	add("exprA:size<=2(pairs of deviations)", func(w *worker) bool { return w.levelExpr(pa, 1, 3, 2) && w.levelExpr(pa, 2, 3, 2) })
 	add("stmt:size<=2(pairs of deviations)", func(w *worker) bool { return w.levelStmt(ps, 1, 2) && w.levelStmt(ps, 2, 2) })
